@@ -73,7 +73,7 @@ def run(tape: Tape) -> Outcome:
     nontrivial_ids = set()
     for si in range(nsets):
         cfg = {"async": bool(tape.draw(2)), "sandboxed": tape.draw(4) == 3, "i18n": tape.draw(4) == 3,
-               "loopcontrols": bool(tape.draw(2)), "autoescape": bool(tape.draw(2)), "finalize": tape.draw(3) == 2}
+               "loopcontrols": bool(tape.draw(2)), "autoescape": (False, True, "select")[tape.draw(3)], "finalize": tape.draw(3) == 2}
         g = Gen(tape, is_async=cfg["async"], loopcontrols=cfg["loopcontrols"], compile_bias=True, size=2 + tape.draw(3))
         P = g.generate()
         biased = any(P.features.get(b) for b in BIAS)
@@ -87,6 +87,10 @@ def run(tape: Tape) -> Outcome:
                         + " ".join("{{ %s }}" % n for n in reversed(free)) + "{% endtrans %}")
                 out.count("templates_with_i18n_free_variables")
             cid = len(corpus)
+            if cfg["autoescape"] == "select":
+                # compile() never loads the other templates, so the name is free: autoescaping is chosen from it
+                name = name + tape.pick([".html.j2", ".txt.j2", ".xml.j2", ".html", ".j2", ".htm"])
+                out.count("templates_autoescape_selected_by_name")
             corpus.append({"id": cid, "name": name, "source": src, "cfg": cfg})
             if biased:
                 nontrivial_ids.add(cid)
